@@ -90,7 +90,8 @@ pub struct SendRec {
     pub contract_ok: bool,
     /// the operation never returned within the run (async send left suspended / run aborted)
     pub unfinished: bool,
-    /// scheduling points the calling thread itself executed inside the call
+    /// scheduling points the calling thread itself executed inside the call while no other thread was inside an operation
+    /// (steps that cannot be explained by waiting for a peer's operation in progress)
     pub own_steps: u32,
     pub cancelled: bool,
 }
@@ -243,28 +244,44 @@ pub struct Epilogue {
 pub fn execute(case: &ChanCase, epi: Epilogue) -> ChanRun {
     let ledger = Ledger::new();
     payload::set_current_ledger(Some(Arc::clone(&ledger)));
-    let chan: Arc<dyn Chan> = chan::make(case.kind, case.buffer, case.max_streams, case.origin);
     let n_prod = case.producers.len();
     let n_cons = case.consumers.len();
     let log = Arc::new(Mutex::new(Log { consumers: vec![ConsumerEnd::default(); n_cons], cur_ops: vec![String::new(); n_prod + n_cons], ..Default::default() }));
-    // streams created up front, in consumer order
-    let streams: Arc<Mutex<Vec<Option<Box<dyn StreamH>>>>> = Arc::new(Mutex::new((0..n_cons).map(|_| None).collect()));
-    for (ci, c) in case.consumers.iter().enumerate() {
-        if !c.create_late {
-            let s = chan.create_stream();
-            log.lock().unwrap().consumers[ci].stream_id = Some(s.id());
-            log.lock().unwrap().consumers[ci].created_at = Some((0, 0));
-            streams.lock().unwrap()[ci] = Some(s);
+    // set-up (channel, the streams created up front in consumer order, the prefill) -- guarded: a broken channel must not hang the harness
+    let late: Vec<bool> = case.consumers.iter().map(|c| c.create_late).collect();
+    let (kind, buffer, max_streams, origin, n_prefill) = (case.kind, case.buffer, case.max_streams, case.origin, case.prefill);
+    type Setup = (Arc<dyn Chan>, Vec<Option<Box<dyn StreamH>>>, Vec<u64>, bool);
+    let setup: Result<Setup, EndState> = crate::sched::guarded(20_000, move || {
+        let chan: Arc<dyn Chan> = chan::make(kind, buffer, max_streams, origin);
+        let streams: Vec<Option<Box<dyn StreamH>>> = late.iter().map(|l| if *l { None } else { Some(chan.create_stream()) }).collect();
+        let mut prefill = vec![];
+        let mut rejected = false;
+        for i in 0..n_prefill {
+            let v = payload::plain(200, i as u32 + 1);
+            if !chan.send(v).accepted { rejected = true; break; }
+            prefill.push(v);
+        }
+        let r: Setup = (chan, LeakOnUnwind::new(streams).take(), prefill, rejected);
+        r
+    });
+    let (chan, streams0, prefill, prefill_rejected) = match setup {
+        Ok(s) => s,
+        Err(end) => {
+            payload::set_current_ledger(None);
+            return ChanRun { end: match end { EndState::Stall { .. } => EndState::Stall { stuck: vec![(n_prod + n_cons, 0)], parked: vec![] }, other => other }, trace: vec![], inside: 0,
+                sends: vec![], polls: vec![], releases: vec![], lens: vec![], cancels: vec![], consumers: vec![ConsumerEnd::default(); n_cons], wakes: vec![vec![]; n_cons], dead_waker_uses: 0, dead_waker_uses_superseded: 0,
+                prefill: vec![], pending_at_quiescence: 0, running_at_quiescence: 0, quiescence_tick: 0, capacity_probe: None, ledger: vec![], ledger_corrupt: 0, n_producers: n_prod, open_after: None,
+                prefill_rejected: false, cur_ops: { let mut v = vec![String::new(); n_prod + n_cons]; v.push("set-up (create channel / streams / prefill)".into()); v }, running_after_drop: None, recreate: None };
+        },
+    };
+    for (ci, s) in streams0.iter().enumerate() {
+        if let Some(s) = s {
+            let mut g = log.lock().unwrap();
+            g.consumers[ci].stream_id = Some(s.id());
+            g.consumers[ci].created_at = Some((0, 0));
         }
     }
-    let mut prefill = vec![];
-    let mut prefill_rejected = false;
-    for i in 0..case.prefill {
-        let v = payload::plain(200, i as u32 + 1);
-        let r = chan.send(v);
-        if !r.accepted { prefill_rejected = true; break; }
-        prefill.push(v);
-    }
+    let streams: Arc<Mutex<Vec<Option<Box<dyn StreamH>>>>> = Arc::new(Mutex::new(streams0));
 
     let sched = Sched::new(n_prod + n_cons, case.schedule.clone(), 30_000);
     let mut bodies: Vec<Box<dyn FnOnce(&ThreadCtx) + Send>> = vec![];
@@ -381,11 +398,21 @@ pub fn execute(case: &ChanCase, epi: Epilogue) -> ChanRun {
     }
     let _ = &mut tick;
     if epi.capacity_probe && !suspended_for_ever {
-        let mut accepted = 0;
-        for i in 0..case.buffer as u32 + 1 {
-            if chan.send(payload::plain(201, i + 1)).accepted { accepted += 1; }
+        let c2 = Arc::clone(&chan);
+        let n = case.buffer as u32 + 1;
+        match crate::sched::guarded(20_000, move || { let mut accepted = 0; for i in 0..n { if c2.send(payload::plain(201, i + 1)).accepted { accepted += 1; } } accepted }) {
+            Ok(accepted) => run.capacity_probe = Some(accepted),
+            Err(end) => {
+                run.end = match end { EndState::Stall { .. } => EndState::Stall { stuck: vec![(n_prod + n_cons, 0)], parked: vec![] }, other => other };
+                let l = std::mem::take(&mut *log.lock().unwrap());
+                run.sends = l.sends; run.polls = l.polls; run.releases = l.releases; run.lens = l.lens; run.cancels = l.cancels; run.consumers = l.consumers; run.cur_ops = l.cur_ops;
+                run.cur_ops.push("send (capacity probe after the run)".into());
+                std::mem::forget(live);
+                std::mem::forget(chan);
+                payload::set_current_ledger(None);
+                return run;
+            },
         }
-        run.capacity_probe = Some(accepted);
     }
     run.open_after = Some(chan.is_open());
     if suspended_for_ever {
@@ -397,7 +424,18 @@ pub fn execute(case: &ChanCase, epi: Epilogue) -> ChanRun {
         payload::set_current_ledger(None);
         return run;
     }
-    drop(live);
+    {
+        let live2 = std::mem::take(&mut live);
+        if let Err(end) = crate::sched::guarded(20_000, move || { let l = LeakOnUnwind::new(live2); drop(l.take()); }) {
+            run.end = match end { EndState::Stall { .. } => EndState::Stall { stuck: vec![(n_prod + n_cons, 0)], parked: vec![] }, other => other };
+            let l = std::mem::take(&mut *log.lock().unwrap());
+            run.sends = l.sends; run.polls = l.polls; run.releases = l.releases; run.lens = l.lens; run.cancels = l.cancels; run.consumers = l.consumers; run.cur_ops = l.cur_ops;
+            run.cur_ops.push("drop of the streams (teardown)".into());
+            std::mem::forget(chan);
+            payload::set_current_ledger(None);
+            return run;
+        }
+    }
     if epi.recreate_probe {
         run.running_after_drop = Some(chan.running());
         let chan2 = Arc::clone(&chan);
@@ -409,10 +447,13 @@ pub fn execute(case: &ChanCase, epi: Epilogue) -> ChanRun {
         }
     }
     drop(streams);
-    drop(chan);
-    payload::set_current_ledger(None);
     let l = std::mem::take(&mut *log.lock().unwrap());
     run.sends = l.sends; run.polls = l.polls; run.releases = l.releases; run.lens = l.lens; run.cancels = l.cancels; run.consumers = l.consumers; run.cur_ops = l.cur_ops;
+    if let Err(end) = crate::sched::guarded(20_000, move || { let c = LeakOnUnwind::new(chan); drop(c.take()); }) {
+        run.end = match end { EndState::Stall { .. } => EndState::Stall { stuck: vec![(n_prod + n_cons, 0)], parked: vec![] }, other => other };
+        run.cur_ops.push("drop of the channel (teardown)".into());
+    }
+    payload::set_current_ledger(None);
     run.ledger = ledger.all();
     run.ledger_corrupt = ledger.corrupt();
     run
@@ -468,7 +509,7 @@ fn producer_body(ctx: &ThreadCtx, pi: usize, script: &[POp], chan: &dyn Chan, lo
         match r {
             Poll::Ready(res) => {
                 let ret = ctx.tick();
-                let steps = ctx.own_steps().saturating_sub(a.step0);
+                let steps = ctx.solo_steps().saturating_sub(a.step0);
                 let mut g = log.lock().unwrap();
                 let rec = &mut g.sends[a.idx];
                 rec.ret = ret; rec.accepted = res.accepted; rec.contract_ok = res.contract_ok; rec.unfinished = false; rec.own_steps = steps;
@@ -493,9 +534,9 @@ fn producer_body(ctx: &ThreadCtx, pi: usize, script: &[POp], chan: &dyn Chan, lo
                     tries += 1;
                     ctx.point("send.call");
                     let call = ctx.tick();
-                    let step0 = ctx.own_steps();
+                    let step0 = ctx.solo_steps();
                     let res = ctx.op(|| one_send(ctx, chan, entry, v));
-                    let own_steps = ctx.own_steps().saturating_sub(step0);
+                    let own_steps = ctx.solo_steps().saturating_sub(step0);
                     let ret = ctx.tick();
                     push_send(SendRec { thread: t, entry, val: v, call, ret, accepted: res.accepted, contract_ok: res.contract_ok, unfinished: false, own_steps, cancelled: false });
                     if res.accepted || !retry || tries >= 4 { break; }
@@ -534,7 +575,7 @@ fn producer_body(ctx: &ThreadCtx, pi: usize, script: &[POp], chan: &dyn Chan, lo
                 let gate = Arc::new(Gate::default());
                 gate.remaining.store(k as u32, Relaxed);
                 let call = ctx.tick();
-                let step0 = ctx.own_steps();
+                let step0 = ctx.solo_steps();
                 let idx = push_send(SendRec { thread: t, entry: Entry::SendAsync(k), val: v, call, ret: u64::MAX, accepted: false, contract_ok: true, unfinished: true, own_steps: 0, cancelled: false });
                 let mut a = PendingAsync { fut: chan.send_async(v, gate), idx, step0 };
                 if !poll_async(ctx, &mut a) { asyncs.push(a); }
@@ -590,22 +631,22 @@ fn send_reserved(ctx: &ThreadCtx, chan: &dyn Chan, log: &Arc<Mutex<Log>>, slot: 
     let v = log.lock().unwrap().sends[idx].val;
     chan.fill(slot, v);
     ctx.point("reserved.send");
-    let step0 = ctx.own_steps();
+    let step0 = ctx.solo_steps();
     ctx.op(|| { while !chan.send_reserved(slot) { ctx.backoff(); } });
     let ret = ctx.tick();
     let mut g = log.lock().unwrap();
     let rec = &mut g.sends[idx];
-    rec.ret = ret; rec.accepted = true; rec.unfinished = false; rec.own_steps = ctx.own_steps().saturating_sub(step0);
+    rec.ret = ret; rec.accepted = true; rec.unfinished = false; rec.own_steps = ctx.solo_steps().saturating_sub(step0);
 }
 
 fn cancel_reserved(ctx: &ThreadCtx, chan: &dyn Chan, log: &Arc<Mutex<Log>>, slot: usize, idx: usize) {
     ctx.point("reserved.cancel");
-    let step0 = ctx.own_steps();
+    let step0 = ctx.solo_steps();
     ctx.op(|| { while !chan.cancel_reserved(slot) { ctx.backoff(); } });
     let ret = ctx.tick();
     let mut g = log.lock().unwrap();
     let rec = &mut g.sends[idx];
-    rec.ret = ret; rec.accepted = false; rec.cancelled = true; rec.unfinished = false; rec.own_steps = ctx.own_steps().saturating_sub(step0);
+    rec.ret = ret; rec.accepted = false; rec.cancelled = true; rec.unfinished = false; rec.own_steps = ctx.solo_steps().saturating_sub(step0);
 }
 
 fn consumer_body(ctx: &ThreadCtx, ci: usize, tid: usize, cons: &Consumer, chan: &dyn Chan, log: &Arc<Mutex<Log>>, streams: &Arc<Mutex<Vec<Option<Box<dyn StreamH>>>>>) {
